@@ -289,7 +289,18 @@ impl Namer {
                     }
                     _ => {}
                 }
-                Some((size, shorten(format!("[{} {}]", kind.trim_end_matches("Sort"), parts.join(" ")))))
+                let head = match kind.as_str() {
+                    "VecSort" => "vec-of",
+                    "SetSort" => "set-of",
+                    "MultiSetSort" => "multiset-of",
+                    other => other,
+                };
+                let text = if matches!(kind.as_str(), "VecSort" | "SetSort" | "MultiSetSort") {
+                    if parts.is_empty() { format!("({head})") } else { format!("({head} {})", parts.join(" ")) }
+                } else {
+                    format!("[{} {}]", kind.trim_end_matches("Sort"), parts.join(" "))
+                };
+                Some((size, shorten(text)))
             }
         }
     }
